@@ -2052,6 +2052,145 @@ static void compile_expr(CG *cg, ASTNode *node) {
 
 /* ── Statement compilation ──────────────────────────────────────── */
 
+/* Nested function definition (closure).  Kept out of compile_stmt(): the saved copies of the
+ * compiler state below are large, and as locals of compile_stmt() they made EVERY recursion level of
+ * statement compilation (nested if / while / match / unsafe blocks) cost that much C stack. */
+static void compile_nested_function(CG *cg, ASTNode *node) {
+    /* Nested function definition: compile with parent context for captures */
+    if (node->as.function.is_extern) return;
+
+    const char *name = node->as.function.name;
+
+    /* Each level keeps a full snapshot of the compiler state on the C stack */
+    {
+        int nest_depth = 0;
+        for (CG *q = cg->parent; q; q = q->parent) nest_depth++;
+        if (nest_depth >= MAX_NESTED_FN_DEPTH) {
+            cg_error(cg, node->line, "function '%s' is nested too deeply (more than %d levels)",
+                     name ? name : "?", MAX_NESTED_FN_DEPTH);
+            return;
+        }
+    }
+
+    /* Register nested function in module function table if not already there */
+    int32_t fn_idx = fn_find(cg, name);
+    if (fn_idx < 0) {
+        uint32_t name_idx = nvm_add_string(cg->module, name, (uint32_t)strlen(name));
+        NvmFunctionEntry fn = {0};
+        fn.name_idx = name_idx;
+        fn.arity = (uint16_t)node->as.function.param_count;
+        fn_idx = (int32_t)nvm_add_function(cg->module, &fn);
+        if (cg->fn_count < MAX_FUNCTIONS) {
+            cg->functions[cg->fn_count].name = (char *)name;
+            cg->functions[cg->fn_count].fn_idx = (uint32_t)fn_idx;
+            cg->fn_count++;
+        }
+    }
+
+    /* Save parent's compilation state */
+    uint8_t *saved_code = cg->code;
+    uint32_t saved_code_size = cg->code_size;
+    uint32_t saved_code_cap = cg->code_cap;
+    Local saved_locals[MAX_LOCALS];
+    memcpy(saved_locals, cg->locals, sizeof(cg->locals));
+    uint16_t saved_local_count = cg->local_count;
+    uint16_t saved_param_count = cg->param_count;
+    LoopCtx saved_loops[MAX_LOOP_DEPTH];
+    memcpy(saved_loops, cg->loops, sizeof(cg->loops));
+    int saved_loop_depth = cg->loop_depth;
+    Upvalue saved_upvalues[MAX_UPVALUES];
+    memcpy(saved_upvalues, cg->upvalues, sizeof(cg->upvalues));
+    uint16_t saved_upvalue_count = cg->upvalue_count;
+    CG *saved_parent = cg->parent;
+
+    /* Set up child compilation context using same CG struct */
+    CG parent_snapshot;
+    memcpy(&parent_snapshot, cg, sizeof(CG));
+    /* Restore parent's locals for upvalue resolution */
+    memcpy(parent_snapshot.locals, saved_locals, sizeof(saved_locals));
+    parent_snapshot.local_count = saved_local_count;
+    parent_snapshot.upvalues[0].name = NULL; /* sentinel */
+    parent_snapshot.upvalue_count = saved_upvalue_count;
+    parent_snapshot.parent = saved_parent;
+
+    cg->parent = &parent_snapshot;
+    cg->code = malloc(CODE_INITIAL);
+    cg->code_size = 0;
+    cg->code_cap = CODE_INITIAL;
+    cg->local_count = 0;
+    cg->param_count = (uint16_t)node->as.function.param_count;
+    cg->loop_depth = 0;
+    cg->upvalue_count = 0;
+
+    /* Parameters become the first locals of nested function */
+    for (int i = 0; i < node->as.function.param_count; i++) {
+        uint16_t slot = local_add(cg, node->as.function.params[i].name, node->line);
+        if (node->as.function.params[i].struct_type_name) {
+            cg->locals[slot].struct_type = node->as.function.params[i].struct_type_name;
+        }
+    }
+
+    /* Compile nested function body */
+    ASTNode *body = node->as.function.body;
+    if (body) {
+        if (body->type == AST_BLOCK) {
+            for (int i = 0; i < body->as.block.count; i++) {
+                compile_stmt(cg, body->as.block.statements[i]);
+            }
+        } else {
+            compile_expr(cg, body);
+            emit_op(cg, OP_RET);
+        }
+    }
+    if (cg->code_size == 0 || cg->code[cg->code_size - 1] != OP_RET) {
+        emit_op(cg, OP_PUSH_VOID);
+        emit_op(cg, OP_RET);
+    }
+
+    /* Save nested function's upvalue info before restoring parent state */
+    uint16_t child_upvalue_count = cg->upvalue_count;
+    Upvalue child_upvalues[MAX_UPVALUES];
+    memcpy(child_upvalues, cg->upvalues, sizeof(Upvalue) * child_upvalue_count);
+
+    /* Finalize nested function in module */
+    if (!cg->had_error) {
+        uint32_t code_off = nvm_append_code(cg->module, cg->code, cg->code_size);
+        NvmFunctionEntry *entry = &cg->module->functions[fn_idx];
+        entry->code_offset = code_off;
+        entry->code_length = cg->code_size;
+        entry->local_count = cg->local_count;
+        entry->upvalue_count = child_upvalue_count;
+    }
+
+    /* Free child code buffer and restore parent state */
+    free(cg->code);
+    cg->code = saved_code;
+    cg->code_size = saved_code_size;
+    cg->code_cap = saved_code_cap;
+    memcpy(cg->locals, saved_locals, sizeof(cg->locals));
+    cg->local_count = saved_local_count;
+    cg->param_count = saved_param_count;
+    memcpy(cg->loops, saved_loops, sizeof(cg->loops));
+    cg->loop_depth = saved_loop_depth;
+    memcpy(cg->upvalues, saved_upvalues, sizeof(cg->upvalues));
+    cg->upvalue_count = saved_upvalue_count;
+    cg->parent = saved_parent;
+
+    /* At the definition site: push captured values, then emit CLOSURE_NEW */
+    for (int i = 0; i < child_upvalue_count; i++) {
+        if (child_upvalues[i].is_local) {
+            emit_op(cg, OP_LOAD_LOCAL, (int)child_upvalues[i].parent_slot);
+        } else {
+            emit_op(cg, OP_LOAD_UPVALUE, 0, (int)child_upvalues[i].parent_slot);
+        }
+    }
+    emit_op(cg, OP_CLOSURE_NEW, (uint32_t)fn_idx, (int)child_upvalue_count);
+
+    /* Store closure in a local variable named after the function */
+    uint16_t closure_slot = local_add(cg, name, node->line);
+    emit_op(cg, OP_STORE_LOCAL, (int)closure_slot);
+}
+
 static void compile_stmt(CG *cg, ASTNode *node) {
     if (!node || cg->had_error) return;
 
@@ -2353,142 +2492,9 @@ static void compile_stmt(CG *cg, ASTNode *node) {
     case AST_UNION_DEF:
         break;
 
-    case AST_FUNCTION: {
-        /* Nested function definition: compile with parent context for captures */
-        if (node->as.function.is_extern) break;
-
-        const char *name = node->as.function.name;
-
-        /* Each level keeps a full snapshot of the compiler state on the C stack */
-        {
-            int nest_depth = 0;
-            for (CG *q = cg->parent; q; q = q->parent) nest_depth++;
-            if (nest_depth >= MAX_NESTED_FN_DEPTH) {
-                cg_error(cg, node->line, "function '%s' is nested too deeply (more than %d levels)",
-                         name ? name : "?", MAX_NESTED_FN_DEPTH);
-                break;
-            }
-        }
-
-        /* Register nested function in module function table if not already there */
-        int32_t fn_idx = fn_find(cg, name);
-        if (fn_idx < 0) {
-            uint32_t name_idx = nvm_add_string(cg->module, name, (uint32_t)strlen(name));
-            NvmFunctionEntry fn = {0};
-            fn.name_idx = name_idx;
-            fn.arity = (uint16_t)node->as.function.param_count;
-            fn_idx = (int32_t)nvm_add_function(cg->module, &fn);
-            if (cg->fn_count < MAX_FUNCTIONS) {
-                cg->functions[cg->fn_count].name = (char *)name;
-                cg->functions[cg->fn_count].fn_idx = (uint32_t)fn_idx;
-                cg->fn_count++;
-            }
-        }
-
-        /* Save parent's compilation state */
-        uint8_t *saved_code = cg->code;
-        uint32_t saved_code_size = cg->code_size;
-        uint32_t saved_code_cap = cg->code_cap;
-        Local saved_locals[MAX_LOCALS];
-        memcpy(saved_locals, cg->locals, sizeof(cg->locals));
-        uint16_t saved_local_count = cg->local_count;
-        uint16_t saved_param_count = cg->param_count;
-        LoopCtx saved_loops[MAX_LOOP_DEPTH];
-        memcpy(saved_loops, cg->loops, sizeof(cg->loops));
-        int saved_loop_depth = cg->loop_depth;
-        Upvalue saved_upvalues[MAX_UPVALUES];
-        memcpy(saved_upvalues, cg->upvalues, sizeof(cg->upvalues));
-        uint16_t saved_upvalue_count = cg->upvalue_count;
-        CG *saved_parent = cg->parent;
-
-        /* Set up child compilation context using same CG struct */
-        CG parent_snapshot;
-        memcpy(&parent_snapshot, cg, sizeof(CG));
-        /* Restore parent's locals for upvalue resolution */
-        memcpy(parent_snapshot.locals, saved_locals, sizeof(saved_locals));
-        parent_snapshot.local_count = saved_local_count;
-        parent_snapshot.upvalues[0].name = NULL; /* sentinel */
-        parent_snapshot.upvalue_count = saved_upvalue_count;
-        parent_snapshot.parent = saved_parent;
-
-        cg->parent = &parent_snapshot;
-        cg->code = malloc(CODE_INITIAL);
-        cg->code_size = 0;
-        cg->code_cap = CODE_INITIAL;
-        cg->local_count = 0;
-        cg->param_count = (uint16_t)node->as.function.param_count;
-        cg->loop_depth = 0;
-        cg->upvalue_count = 0;
-
-        /* Parameters become the first locals of nested function */
-        for (int i = 0; i < node->as.function.param_count; i++) {
-            uint16_t slot = local_add(cg, node->as.function.params[i].name, node->line);
-            if (node->as.function.params[i].struct_type_name) {
-                cg->locals[slot].struct_type = node->as.function.params[i].struct_type_name;
-            }
-        }
-
-        /* Compile nested function body */
-        ASTNode *body = node->as.function.body;
-        if (body) {
-            if (body->type == AST_BLOCK) {
-                for (int i = 0; i < body->as.block.count; i++) {
-                    compile_stmt(cg, body->as.block.statements[i]);
-                }
-            } else {
-                compile_expr(cg, body);
-                emit_op(cg, OP_RET);
-            }
-        }
-        if (cg->code_size == 0 || cg->code[cg->code_size - 1] != OP_RET) {
-            emit_op(cg, OP_PUSH_VOID);
-            emit_op(cg, OP_RET);
-        }
-
-        /* Save nested function's upvalue info before restoring parent state */
-        uint16_t child_upvalue_count = cg->upvalue_count;
-        Upvalue child_upvalues[MAX_UPVALUES];
-        memcpy(child_upvalues, cg->upvalues, sizeof(Upvalue) * child_upvalue_count);
-
-        /* Finalize nested function in module */
-        if (!cg->had_error) {
-            uint32_t code_off = nvm_append_code(cg->module, cg->code, cg->code_size);
-            NvmFunctionEntry *entry = &cg->module->functions[fn_idx];
-            entry->code_offset = code_off;
-            entry->code_length = cg->code_size;
-            entry->local_count = cg->local_count;
-            entry->upvalue_count = child_upvalue_count;
-        }
-
-        /* Free child code buffer and restore parent state */
-        free(cg->code);
-        cg->code = saved_code;
-        cg->code_size = saved_code_size;
-        cg->code_cap = saved_code_cap;
-        memcpy(cg->locals, saved_locals, sizeof(cg->locals));
-        cg->local_count = saved_local_count;
-        cg->param_count = saved_param_count;
-        memcpy(cg->loops, saved_loops, sizeof(cg->loops));
-        cg->loop_depth = saved_loop_depth;
-        memcpy(cg->upvalues, saved_upvalues, sizeof(cg->upvalues));
-        cg->upvalue_count = saved_upvalue_count;
-        cg->parent = saved_parent;
-
-        /* At the definition site: push captured values, then emit CLOSURE_NEW */
-        for (int i = 0; i < child_upvalue_count; i++) {
-            if (child_upvalues[i].is_local) {
-                emit_op(cg, OP_LOAD_LOCAL, (int)child_upvalues[i].parent_slot);
-            } else {
-                emit_op(cg, OP_LOAD_UPVALUE, 0, (int)child_upvalues[i].parent_slot);
-            }
-        }
-        emit_op(cg, OP_CLOSURE_NEW, (uint32_t)fn_idx, (int)child_upvalue_count);
-
-        /* Store closure in a local variable named after the function */
-        uint16_t closure_slot = local_add(cg, name, node->line);
-        emit_op(cg, OP_STORE_LOCAL, (int)closure_slot);
+    case AST_FUNCTION:
+        compile_nested_function(cg, node);
         break;
-    }
 
     case AST_UNSAFE_BLOCK: {
         for (int i = 0; i < node->as.block.count; i++) {
